@@ -1071,6 +1071,146 @@ def r19k(ctx):
         raise AnalysisError("R19k: no address-writing site found in Table")
 
 
+_FIXTURE_L = '''
+class Table:
+    def get_cells(self, coord):
+        x, y, z, t = self._translate_table_coordinates(coord)
+        columns = (x, z) if (x or z) else None
+        return columns
+    def get_rows(self, coord):
+        x, y, z, t = self._translate_table_coordinates(coord)
+        if not y:
+            y = 0
+        return y
+    def fine(self, coord):
+        x, y, z, t = self._translate_table_coordinates(coord)
+        if x is None:
+            x = 0
+        if z and z < 0:
+            z = 0
+        while y is not None and y < t:
+            y += 1
+        return x, z
+    def first(self, x):
+        x = self._translate_x_from_any(x)
+        return [] if not x else [x]
+'''
+
+
+def _truth_tested_coords(fn: ast.FunctionDef):
+    """(name node, test) for every truth test of a local that holds a translated coordinate"""
+    coords = set()
+    for a in walk_no_nested(fn):
+        if isinstance(a, ast.Assign) and isinstance(a.value, ast.Call) and call_name(a.value).startswith("_translate"):
+            for t in a.targets:
+                coords |= {x.id for x in ast.walk(t) if isinstance(x, ast.Name)}
+    out = []
+    if not coords:
+        return out
+
+    def truth_positions(t):
+        """sub-expressions of a test that are evaluated for their truth value"""
+        if isinstance(t, ast.BoolOp):
+            for v in t.values:
+                yield from truth_positions(v)
+        elif isinstance(t, ast.UnaryOp) and isinstance(t.op, ast.Not):
+            yield from truth_positions(t.operand)
+        else:
+            yield t
+
+    for n in walk_no_nested(fn):
+        tests = []
+        if isinstance(n, (ast.If, ast.While, ast.IfExp)):
+            tests.append(n.test)
+        if isinstance(n, ast.Assert):
+            tests.append(n.test)
+        if isinstance(n, ast.comprehension):
+            tests.extend(n.ifs)
+        if isinstance(n, ast.BoolOp) and not any(isinstance(a, (ast.If, ast.While, ast.IfExp)) and a.test is n for a in [getattr(n, "_parent", None)]):
+            # `a or b` used as a value: each operand but the last is truth-tested
+            par = getattr(n, "_parent", None)
+            if not isinstance(par, (ast.BoolOp, ast.UnaryOp)) and not (isinstance(par, (ast.If, ast.While, ast.IfExp)) and par.test is n):
+                tests.append(ast.BoolOp(op=n.op, values=n.values[:-1])) if len(n.values) > 1 else None
+        for t in tests:
+            if t is None:
+                continue
+            for sub in truth_positions(t):
+                if isinstance(sub, ast.Name) and sub.id in coords:
+                    # `x and x < 0`: the truth test only shields the comparison from None
+                    shielded = isinstance(t, ast.BoolOp) and isinstance(t.op, ast.And) and any(
+                        isinstance(v, ast.Compare) and any(isinstance(x, ast.Name) and x.id == sub.id for x in ast.walk(v))
+                        and not any(isinstance(o, (ast.Is, ast.IsNot)) for o in v.ops) for v in t.values)
+                    if not shielded:
+                        out.append((sub, t))
+    return out
+
+
+def r19l(ctx):
+    """Column A and row 1 are coordinates like any other.
+
+    "A range bounds the result on both sides" for every range, also one that starts or ends at 0.  A translated coordinate is None (open) or a
+    number; `if x`, `x or z`, `not y` treat 0 like None, so an area confined to column A or row 1 is taken for "no bound" and the whole row or
+    table comes back — del_span of a span in column A then retags cells of other spans.  Today no method of Table or Row tests a coordinate it
+    got from a translator for truth: they compare with `is None`.  Rule (expected count 0, fixture evaluated on every run): a local bound from
+    a `_translate*` call is never evaluated for its truth value, except as `v and v < …`, where the truth test only shields the comparison.
+    """
+    repo = ctx.repo
+    ctx.rule("R19l", "a translated coordinate is tested with `is None` or compared, never for truth (0 is a coordinate)", floor=30)
+    tree = ast.parse(_FIXTURE_L)
+    for x in ast.walk(tree):
+        for ch in ast.iter_child_nodes(x):
+            ch._parent = x
+    got = sorted(fn.name for fn in ast.walk(tree) if isinstance(fn, ast.FunctionDef) and _truth_tested_coords(fn))
+    if got != ["first", "get_cells", "get_rows"]:
+        raise AnalysisError(f"R19l fixture: detector broken: {got}")
+    for cn in ("Table", "Row"):
+        c = repo.cls(cn)
+        for name, fs in sorted(c.methods.items()):
+            for f in fs:
+                if f.cls is not c or not any(isinstance(a, ast.Call) and call_name(a).startswith("_translate") for a in walk_no_nested(f.node)):
+                    continue
+                bad = _truth_tested_coords(f.node)
+                ctx.instance("R19l", f"{f.file}:{f.ident}", "no truth test of a translated coordinate", ok=not bad, nontrivial=True, line=f.node.lineno)
+                for nm, t in bad[:1]:
+                    ctx.report("R19l", f, nm, f"truth({nm.id}) in {norm(t, 30)}",
+                               f"{f.ident} evaluates the coordinate `{nm.id}` for its truth value in `{norm(t, 40)}`: 0 (column A, row 1) is treated like None (no bound), so a range that "
+                               f"starts or ends there is not bounded on that side")
+
+
+def r19m(ctx):
+    """A named range is written with the table name it was given.
+
+    "A named range written with any accepted table name and area is read back with the same table name and area."  Names of named ranges are
+    unique in the whole document, so defining a name again replaces a definition that may belong to *another* table.  Table.set_named_range
+    resolves the table name (the argument, or the table's own name) and builds the NamedRange from it.  A path that reuses the existing
+    definition and only updates its area writes the area under the old definition's table name.  Rule: every normal path through
+    Table.set_named_range hands the resolved `table_name`, and the `crange`, to the NamedRange constructor or to a setter of the range.
+    """
+    from ..paths import cfg_of, node_of
+    repo = ctx.repo
+    ctx.rule("R19m", "every normal path of Table.set_named_range writes the table name and the area it was given", floor=2)
+    f = repo.func("Table.set_named_range")
+    params = [a.arg for a in f.node.args.args]
+    cfg = cfg_of(f)
+    for pname in ("table_name", "crange"):
+        if pname not in params:
+            raise AnalysisError(f"R19m: Table.set_named_range lost its `{pname}` parameter")
+        users = [c for c in walk_no_nested(f.node) if isinstance(c, ast.Call) and (call_name(c) == "NamedRange" or call_name(c).startswith("set_") or call_name(c) == "_set_range")
+                 and any(isinstance(x, ast.Name) and x.id == pname for a in list(c.args) + [k.value for k in c.keywords] for x in ast.walk(a))]
+        users += [a for a in walk_no_nested(f.node) if isinstance(a, ast.Assign) and any(isinstance(t, ast.Attribute) for t in a.targets)
+                  and any(isinstance(x, ast.Name) and x.id == pname for x in ast.walk(a.value))]
+        nodes = [x for x in (node_of(cfg, u) for u in users) if x is not None]
+        path = cfg.path_avoiding(cfg.entry, cfg.exit, nodes, follow_exc=False) if nodes else [cfg.entry]
+        ok = path is None
+        ctx.instance("R19m", f"{f.file}:{f.ident}", f"`{pname}` reaches the named range on every normal path", ok=ok, nontrivial=True, line=f.node.lineno)
+        if not ok:
+            last = [x.stmt for x in path if x.stmt is not None][-1:] or [f.node]
+            ctx.report("R19m", f, last[0], f"{pname} skipped via {norm(last[0], 40)}",
+                       f"{f.ident} has a normal path (ending at `{norm(last[0], 40)}`) on which `{pname}` is never written to the named range: a name defined again from another table keeps "
+                       f"the table name of its first definition, and is read back pointing to that table",
+                       path=[repr(x) for x in path if x.stmt is not None][:10])
+
+
 def run(ctx):
     r19a(ctx)
     r19b(ctx)
@@ -1083,6 +1223,8 @@ def run(ctx):
     r19i(ctx)
     r19j(ctx)
     r19k(ctx)
+    r19l(ctx)
+    r19m(ctx)
     # "a range bounds the result on both sides": the expanding traversals decide which columns/cells a range returns (rule shared with C08)
     from .c08 import r08c
     r08c(ctx)
@@ -1093,6 +1235,12 @@ from ..selftest import Seed, unparse_seed  # noqa: E402
 _T = "src/odfdo/table.py"
 _R = "src/odfdo/row.py"
 SEEDS = [
+    Seed("set_named_range updates an existing definition in place", "fault", _T,
+         "        named_range = NamedRange(name, crange, table_name, usage)\n        body.append_named_range(named_range)",
+         "        current = body.get_named_range(name)\n        if current is not None:\n            current.set_range(crange)\n            current.set_usage(usage)\n            return\n        named_range = NamedRange(name, crange, table_name, usage)\n        body.append_named_range(named_range)", "R19m"),
+    Seed("Table.get_cells drops the column range when both bounds are falsy", "fault", _T,
+         "        if flat:\n            cells: list[Cell] = []\n            for row in self.traverse(start=y, end=t):\n                row_cells = row.get_cells(\n                    coord=(x, z),",
+         "        if flat:\n            cells: list[Cell] = []\n            for row in self.traverse(start=y, end=t):\n                row_cells = row.get_cells(\n                    coord=(x, z) if (x or z) else None,", "R19l"),
     Seed("set_cell_image takes the address numbers straight from the parser", "fault", _T,
          "        x, y = self._translate_cell_coordinates(coord)\n        if x is None:\n            raise ValueError\n        if y is None:\n            raise ValueError\n        cell = self.get_cell((x, y))\n        image_frame",
          "        x, y = convert_coordinates(coord)[:2]\n        if x is None:\n            raise ValueError\n        if y is None:\n            raise ValueError\n        cell = self.get_cell(coord)\n        image_frame", "R19k"),
